@@ -2,7 +2,8 @@
 """Regenerate MANIFEST.json's checks / not_applicable from props.json (single source)."""
 import json, os
 V = os.path.dirname(os.path.dirname(os.path.abspath(__file__)))
-props = json.load(open(os.path.join(V, "props.json")))
+import glob
+props = {os.path.basename(f)[:-5]: json.load(open(f)) for f in sorted(glob.glob(os.path.join(V, "props.d", "C*.json")))}
 m = json.load(open(os.path.join(V, "MANIFEST.json")))
 allids = [json.loads(l)["id"] for l in open(os.path.join(V, "properties.jsonl"))]
 checks = []
